@@ -76,6 +76,18 @@ func Damage(r *Rng, b *Build, o DamageOpts) (*Build, []string) {
 			if n < 1 {
 				n = 1
 			}
+			if len(f.Data) > 0 && r.Bool() {
+				// also damage the signed range, in its last block(s): the "too long" wound and the block wounds
+				// of the trailing run then reach the consumers in an order of their own
+				lastStart := ((len(f.Data) - 1) / BS) * BS
+				pos := lastStart + r.Intn(len(f.Data)-lastStart)
+				if r.Intn(3) == 0 && lastStart >= BS {
+					pos = lastStart - 1 - r.Intn(BS)
+					f.Data[lastStart] ^= 0x55
+				}
+				f.Data[pos] ^= byte(1 + r.Intn(255))
+				desc = append(desc, fmt.Sprintf("flip %s@%d", f.Path, pos))
+			}
 			f.Data = append(f.Data, r.Bytes(n)...)
 			desc = append(desc, fmt.Sprintf("extend %s+%d", f.Path, n))
 		case 5: // emptied
